@@ -1430,6 +1430,25 @@ func (g *G) genTParams(skipEnsure bool) ([]TParamDecl, bool) {
 					g.label("tparam:exported-differs")
 				}
 			}
+			if g.Chance(8) {
+				// the name moq would generate for a BLANK type parameter constrained by one of the world's
+				// constraint types: a later blank parameter of that constraint then wants the same name
+				var cn []string
+				for _, p := range append(append([]*Pkg{}, g.deps...), g.src) {
+					for _, d := range p.Decls {
+						if (d.Constr || d.Iface) && d.NTParams == 0 && d.Exported {
+							cn = append(cn, LowerFirst(d.Name))
+						}
+					}
+				}
+				if len(cn) > 0 {
+					name = cn[g.Int(0, len(cn)-1)]
+					if IsKeyword(name) || Predeclared[name] || name == "mock" || name == "callInfo" || g.excluded("F-L") {
+						continue
+					}
+					g.label("tparam:named-like-generated-name")
+				}
+			}
 			if !usedN[name] && !g.topNames[name] {
 				break
 			}
@@ -2403,6 +2422,9 @@ func (g *G) Case() *core.Case {
 			// a mock type called like one of the parameters of the interface's methods
 			var names []string
 			fileScope := map[string]bool{} // a package-level type may not be named like an import of any source file
+			for _, tp := range it.TParams {
+				fileScope[tp.Name] = true // nor like a type parameter of the interface (the self-check could not name it)
+			}
 			for _, f := range g.files {
 				for p, a := range f.Imports {
 					fileScope[a] = true
